@@ -1,6 +1,7 @@
 import Hgxv.Proofs.C09Order
 import Hgxv.Proofs.C09Tensor
 import Hgxv.Proofs.C09Witness
+import Hgxv.Proofs.C09Relabel
 import Mathlib.Data.ZMod.Basic
 /-! # C09 — matrix / tensor representations equal their definitions under the node mapping
 
@@ -527,6 +528,64 @@ theorem C09_mapping_tracks_nodes (nodes nodes' : List Nat) (hN : nodes.Nodup) (h
   · intro h
     simp only [mapping, classes_perm_congr nodes nodes' h]
 
+/-- **Only the ORDER of the labels matters, never their values or their type.**  For every strictly increasing
+relabelling `f` of the nodes (in particular the rank map by which comparable labels of any type - non-integer or
+negative floats, strings, integers beyond 2^63 - are sent to the model's `Nat` labels, and maps such as
+`0, 0.5, 2 ↦ 0, 1, 2`): the mapping lists the relabelled nodes at the same indices and every matrix is unchanged.
+Hence no routine may read a label as a number (use it as a row index, truncate it, compare it with `N`): that is
+not invariant under `f`.  No hypothesis on the hypergraph. -/
+theorem C09_relabel_invariant {R : Type} [CommRing R] [DecidableEq R] (f : Nat → Nat) (hf : ∀ a b, a < b → f a < f b)
+    (nodes : List Nat) (es : List (Edge × R)) :
+    mapping (nodes.map f) = (mapping nodes).map (fun p => (p.1, f p.2))
+    ∧ (binInc (nodes.map f) ((relabelEs f es).map (·.1)) : List (List R)) = binInc nodes (es.map (·.1))
+    ∧ inc (nodes.map f) (relabelEs f es) = inc nodes es
+    ∧ (adj (nodes.map f) ((relabelEs f es).map (·.1)) : List (List R)) = adj nodes (es.map (·.1))
+    ∧ (dual (nodes.map f) ((relabelEs f es).map (·.1)) : List (List R)) = dual nodes (es.map (·.1))
+    ∧ (∀ d k, incByOrder d k (nodes.map f) (relabelEs f es) = incByOrder d k nodes es
+          ∧ mappingByOrder d k (nodes.map f) (relabelEs f es)
+              = (mappingByOrder d k nodes es).map (fun p => (p.1, f p.2)))
+    ∧ (∀ d, adjByOrder d (nodes.map f) (relabelEs f es) = adjByOrder d nodes es
+          ∧ degMatrix d (nodes.map f) (relabelEs f es) = degMatrix d nodes es
+          ∧ laplacian d (nodes.map f) (relabelEs f es) = laplacian d nodes es
+          ∧ laplacianScaled d (nodes.map f) (relabelEs f es) = laplacianScaled d nodes es) := by
+  have hf' : Increasing f := hf
+  refine ⟨mapping_map f hf' nodes, ?_, inc_map f hf' nodes es, ?_, ?_, ?_, ?_⟩
+  · rw [relabelEs_fst]; exact binInc_map f hf' nodes _
+  · rw [relabelEs_fst]; exact adj_map f hf' nodes _
+  · rw [relabelEs_fst]; exact dual_map f hf' nodes _
+  · intro d k
+    exact ⟨incByOrder_map f hf' d k nodes es, mappingByOrder_map f hf' d k nodes es⟩
+  · intro d
+    exact ⟨adjByOrder_map f hf' d nodes es, degMatrix_map f hf' d nodes es, laplacian_map f hf' d nodes es,
+      laplacianScaled_map f hf' d nodes es⟩
+
+/-- ... and the same for the temporal matrices: times, snapshot matrices per time (all orders and per order) are
+unchanged, the snapshot's node list (hence its mapping) is relabelled. -/
+theorem C09_relabel_invariant_temporal {R : Type} [CommRing R] [DecidableEq R] (f : Nat → Nat)
+    (hf : ∀ a b, a < b → f a < f b) (recs : List (Rec R)) :
+    times (relabelRecs f recs) = times recs
+    ∧ ∀ t, snapshotNodes (relabelRecs f recs) t = (snapshotNodes recs t).map f
+        ∧ mapping (snapshotNodes (relabelRecs f recs) t) = (mapping (snapshotNodes recs t)).map (fun p => (p.1, f p.2))
+        ∧ temporalAdj (relabelRecs f recs) t = temporalAdj recs t
+        ∧ ∀ d, temporalAdjByOrder d (relabelRecs f recs) t = temporalAdjByOrder d recs t := by
+  have hf' : Increasing f := hf
+  refine ⟨times_map f recs, fun t => ⟨snapshotNodes_map f hf' recs t, ?_, temporalAdj_map f hf' recs t,
+    fun d => temporalAdjByOrder_map f hf' d recs t⟩⟩
+  rw [snapshotNodes_map f hf', mapping_map f hf']; rfl
+
+/-- **When may the encoder be skipped?**  The row index of every node equals its label exactly when the sorted
+labels are `0, 1, .., N-1`.  (Over `Nat` labels `min = 0 ∧ max = N-1` happens to imply that; over labels that are
+merely comparable - `0, 0.5, 2` - it does not, and `C09_relabel_invariant` shows that such labels behave like
+`0, 1, 4`, for which the encoder is not the identity: see the example below.) -/
+theorem C09_encoder_identity_iff (nodes : List Nat) (hN : nodes.Nodup) :
+    (∀ x ∈ nodes, encode (classes nodes) x = x) ↔ classes nodes = List.range nodes.length := by
+  constructor
+  · exact classes_eq_range_of_encode_id nodes hN
+  · intro h x hx
+    have hx' : x ∈ classes nodes := (mem_classes x nodes).2 hx
+    rw [h] at hx' ⊢
+    exact encode_range _ x (List.mem_range.1 hx')
+
 /-! ## non-vacuity: every theorem instantiated on a concrete hypergraph with labels that are not `0..N-1`,
 an isolated node (50), overlapping hyperedges of orders 1 and 2 -/
 
@@ -600,3 +659,24 @@ example : adj (α := Int) [50, 7, 30, 10, 20] exE = adj exN exE :=
 example : [10, 20, 30].length = [10, 20, 40].length ∧ mapping [10, 20, 30] ≠ mapping [10, 20, 40] := by decide
 example : ¬ ([10, 20, 30] : List Nat).Perm [10, 20, 40] :=
   fun h => absurd ((C09_mapping_tracks_nodes _ _ (by decide) (by decide)).2 h) (by decide)
+
+/-! the order type of the labels `0, 0.5, 2` (seeded C09-c1) is that of `0, 1, 4`: `f` below maps `0, 1, 2` to it -/
+local notation "exF" => (fun x : Nat => x * x)
+example : ∀ a b : Nat, a < b → exF a < exF b := fun _ _ h => Nat.mul_lt_mul'' h h
+example : mapping ([2, 0, 1].map exF) = [(0, 0), (1, 1), (2, 4)]
+    ∧ binInc (α := Int) ([2, 0, 1].map exF) [[0, 1], [1, 4]] = binInc [2, 0, 1] [[0, 1], [1, 2]] := by decide
+example : binInc (α := Int) ([2, 0, 1].map exF) ((relabelEs exF [([0, 1], (1 : Int)), ([1, 2], 1)]).map (·.1))
+    = binInc [2, 0, 1] [[0, 1], [1, 2]] :=
+  (C09_relabel_invariant (R := Int) exF (fun _ _ h => Nat.mul_lt_mul'' h h) [2, 0, 1] [([0, 1], 1), ([1, 2], 1)]).2.1
+example : adjByOrder 2 (List.map (3 * · + 2) exN) (relabelEs (3 * · + 2) exQ) = adjByOrder 2 exN exQ :=
+  ((C09_relabel_invariant (R := Int) (3 * · + 2) (fun _ _ h => by omega) exN exQ).2.2.2.2.2.2 2).1
+example : laplacian 2 (List.map (3 * · + 2) exN) (relabelEs (3 * · + 2) exQ) = laplacian 2 exN exQ
+    ∧ mapping (List.map (3 * · + 2) exN) = [(0, 23), (1, 32), (2, 62), (3, 92), (4, 152)] := by decide
+example : temporalAdj (relabelRecs (3 * · + 2) exR) 3 = temporalAdj exR 3 :=
+  ((C09_relabel_invariant_temporal (R := Int) (3 * · + 2) (fun _ _ h => by omega) exR).2 3).2.2.1
+example : snapshotNodes (relabelRecs (3 * · + 2) exR) 3 = [32, 62, 92, 122] := by decide
+example : ∀ x ∈ [2, 0, 1], encode (classes [2, 0, 1]) x = x :=
+  (C09_encoder_identity_iff [2, 0, 1] (by decide)).2 (by decide)
+example : classes [4, 0, 1] ≠ List.range 3 ∧ encode (classes [4, 0, 1]) 4 = 2 := by decide
+example : ¬ ∀ x ∈ [4, 0, 1], encode (classes [4, 0, 1]) x = x :=
+  fun h => absurd ((C09_encoder_identity_iff [4, 0, 1] (by decide)).1 h) (by decide)
